@@ -148,7 +148,7 @@ func maskPathsFor(rng *vk.Rand, req protoreflect.MessageDescriptor, maskField st
 		}
 	}
 	if maskField == "read_mask" {
-		if t := readTarget(req); t != nil {
+		if t := ReadTarget(req); t != nil {
 			target = t
 		}
 	}
@@ -163,9 +163,9 @@ var (
 	readTargets  map[protoreflect.FullName]protoreflect.MessageDescriptor
 )
 
-// readTarget returns the message a read mask of req applies to: the response itself for Get-like methods, the
+// ReadTarget returns the message a read mask of req applies to: the response itself for Get-like methods, the
 // element for List responses, the value inside each change for Pull responses.
-func readTarget(req protoreflect.MessageDescriptor) protoreflect.MessageDescriptor {
+func ReadTarget(req protoreflect.MessageDescriptor) protoreflect.MessageDescriptor {
 	readTargetMu.Lock()
 	defer readTargetMu.Unlock()
 	if readTargets == nil {
@@ -199,13 +199,21 @@ func unwrapResponse(out protoreflect.MessageDescriptor) protoreflect.MessageDesc
 		}
 		return nil
 	}
-	if fds.ByName("next_page_token") != nil {
-		for i := 0; i < fds.Len(); i++ {
-			if fd := fds.Get(i); fd.IsList() && fd.Message() != nil {
-				return fd.Message()
-			}
+	// list responses: one repeated message field, possibly with paging fields
+	var rep protoreflect.FieldDescriptor
+	others := 0
+	for i := 0; i < fds.Len(); i++ {
+		fd := fds.Get(i)
+		switch {
+		case fd.IsList() && fd.Message() != nil && rep == nil:
+			rep = fd
+		case fd.Name() == "next_page_token" || fd.Name() == "total_size":
+		default:
+			others++
 		}
-		return nil
+	}
+	if rep != nil && others == 0 {
+		return rep.Message()
 	}
 	return out
 }
